@@ -94,6 +94,16 @@ impl ErrTx {
             final(env).cfg_paths == old(env).cfg_paths, final(env).cfg_kind == old(env).cfg_kind, final(env).round == old(env).round, final(env).fails == old(env).fails, final(env).err_due == old(env).err_due,
     { unimplemented!() }
 }
+pub struct TrySendRes;
+impl TrySendRes { pub fn ok(self) {} }
+impl ErrTx {
+    // Sender::try_send (not used by the worker today; present so that such a change is decided): it does not wait for room, so the error may be refused
+    #[verifier::external_body]
+    pub fn try_send(&self, e: RuntimeError, env: &mut FEnv) -> (r: TrySendRes)
+        ensures final(env).err_sent@ == old(env).err_sent@ || final(env).err_sent@ == old(env).err_sent@ + 1,
+            final(env).cfg_paths == old(env).cfg_paths, final(env).cfg_kind == old(env).cfg_kind, final(env).round == old(env).round, final(env).fails == old(env).fails, final(env).err_due == old(env).err_due,
+    { unimplemented!() }
+}
 impl EvTx { #[verifier::external_body] pub fn clone(&self) -> EvTx { unimplemented!() } }
 // the notify watcher (Box<dyn notify::Watcher>): records what is registered. watch()/unwatch() may fail arbitrarily
 pub struct WatcherS { pub kind: Watcher, pub registered: Ghost<Map<PathS, bool>> }    // path -> recursive?
